@@ -11,9 +11,9 @@ cp demo.py $D/demo.py 2>/dev/null
 echo "== confirm in worktree $WT"
 PYTHONPATH=$WT/src timeout 900 /venv/bin/python -m pytest -q -p no:cacheprovider --timeout=900 > $D/.tests.txt 2>&1; T=$(tail -1 $D/.tests.txt)
 PYTHONPATH=$WT/src timeout 300 /venv/bin/python demo.py > $D/.demo_with.txt 2>&1; DW=$?
-git stash -q -- src
+git apply -R $D/patch.diff   # (not git stash: the stash list is shared between worktrees)
 PYTHONPATH=$WT/src timeout 300 /venv/bin/python demo.py > $D/.demo_without.txt 2>&1; DO=$?
-git stash pop -q
+git apply $D/patch.diff
 echo "tests: $T | demo with change exit=$DW | demo without change exit=$DO"
 echo "== run checks against /repo with the change applied"
 cd /repo && git apply $D/patch.diff || { echo "patch does not apply"; exit 3; }
